@@ -74,6 +74,8 @@ var specs = map[string]propSpec{
 	"C15": {Binaries: true},
 	"C16": {Binaries: true},
 	"C17": {Binaries: true},
+	"C13": {Binaries: true},
+	"C20": {Binaries: true},
 }
 
 func spec(id string) propSpec {
